@@ -28,6 +28,10 @@ func orderUnmaskingInputs(e *env, round int) (book, log string) {
 		fat := []string{"1.115", "2.165", "0.155", "0.105", "1.005", "3.335", "0.445"}[i%7]
 		fmt.Fprintf(&bk, "%s:\n  calories: %d\n  fat: %s\n  %s: 1\n  placeholder: 2\n", names[i], amt, fat, names[20+i%5])
 	}
+	// recipes whose FIRST ingredient is another recipe, taken once (quantity exactly 1), several of them sharing it
+	for i := 1; i <= 3; i++ {
+		fmt.Fprintf(&bk, "combo%d:\n  %s: 1\n  extra%d: %d\n  %s: 0.5\n", i, names[1], i, i+1, names[2])
+	}
 	// a recipe without ingredients that other recipes refer to
 	bk.WriteString("placeholder:\n")
 	// a chain of references at the limit (13 references: fails at the default limit whatever the order) or below it
@@ -49,6 +53,9 @@ func orderUnmaskingInputs(e *env, round int) (book, log string) {
 		}
 		for i := 1; i <= n; i += 2 {
 			fmt.Fprintf(&lg, "  %s: 0.5\n", names[i]) // long days (> 16 entries) in which foods repeat
+		}
+		for i := 1; i <= 3; i++ {
+			fmt.Fprintf(&lg, "  combo%d: %d\n", i, i)
 		}
 		for i := 0; i < 6; i++ {
 			fmt.Fprintf(&lg, "  unknown/%s/%s: 2\n", names[10+i], names[11+i]) // unresolved foods, siblings in the balance tree
